@@ -222,7 +222,7 @@ def groupName : Str := [69, 120, 99, 101, 112, 116, 105, 111, 110, 71, 114, 111,
 /-- an environment in which `builtins` is loaded and the class's `__new__` needs arguments (Python 3.11+:
 `BaseExceptionGroup`, `ExceptionGroup`) -/
 def groupEnv : Env :=
-  { loaded := fun _ => true, importable := fun _ => false, modAttr := fun _ _ => .excClass true,
+  { loaded := fun _ => true, importable := fun _ => false, lazy := fun _ => false, modAttr := fun _ _ => .excClass true,
     builtinAttr := fun _ => .excClass true, fmtName := fun _ _ => .error .notModelled, setattr := fun _ _ _ => .store }
 /-- `ExceptionGroup("m", [ValueError(1)])`: the list argument travels as its repr -/
 def groupRec : ExcRec :=
@@ -470,7 +470,7 @@ def sampleRec : ExcRec :=
             ⟨[119, 105, 116, 104, 95, 116, 114, 97, 99, 101, 98, 97, 99, 107], some ⟨.other 99, [60, 119, 62]⟩, false⟩],
     tbText := .ok [84, 114, 97, 99, 101], walkRaises := none }
 def sampleEnv : Env :=
-  { loaded := fun m => isBuiltinsName m, importable := fun _ => false,
+  { loaded := fun m => isBuiltinsName m, importable := fun _ => false, lazy := fun _ => false,
     modAttr := fun m _ => if isBuiltinsName m then .excClass false else .missing,
     builtinAttr := fun _ => .excClass false, fmtName := fun _ _ => .error .notModelled, setattr := fun _ _ _ => .store }
 
